@@ -46,8 +46,12 @@ LAYOUTS = {
     "codonstart": [("g0", [(12, 72)], 1, 2), ("g1", [(78, 138)], -1, 3), ("g2", [(150, 210)], 1, None)],
     "origin": [("g0", [(12, 72)], 1, None), ("g1", [(78, 138)], -1, None), ("g2", [(210, 240), (0, 30)], 1, None)],
     "origin-reverse": [("g0", [(30, 90)], 1, None), ("g1", [(100, 160)], 1, None), ("g2", [(222, 240), (0, 42)], -1, None)],
+    # an origin-spanning gene with genes shortly before and after it and one far away: with the "spread" rules this gives one
+    # origin-spanning region holding a pre-origin, an origin-spanning and a post-origin protocluster, and a second region
+    "origin-multi": [("g0", [(156, 210)], 1, None), ("g1", [(96, 114)], -1, None), ("g2", [(216, 240), (0, 30)], 1, None),
+                     ("g3", [(36, 54)], 1, None)],
 }
-CIRCULAR_ONLY = {"origin", "origin-reverse"}
+CIRCULAR_ONLY = {"origin", "origin-reverse", "origin-multi"}
 
 RULESETS = {
     # (name, cutoff, neighbourhood, tree, superiors, extender)
@@ -56,12 +60,14 @@ RULESETS = {
     "mixed": [("r1", 45, 6, c03.ID_A, [], None), ("r2", 9, 0, c03.ID_B, [], None),
               ("r3", 45, 21, ["and", [c03.ID_A, c03.ID_B]], [], None)],
     "separate": [("r1", 6, 3, c03.ID_A, [], None)],
+    "spread": [("r1", 3, 9, c03.ID_A, [], None), ("r2", 3, 9, c03.ID_B, [], None)],
 }
 HITS = {
     "single": {"g0": {"a": 7}, "g1": {"a": 7}},
     "twins": {"g0": {"a": 7, "b": 7}},
     "mixed": {"g0": {"a": 7, "b": 7}, "g1": {"b": 7}, "g2": {"a": 7}},
     "separate": {"g0": {"a": 7}, "g2": {"a": 7}},
+    "spread": {"g0": {"a": 7}, "g1": {"a": 7}, "g2": {"b": 7}, "g3": {"a": 7}},
 }
 TOOL = Tool("side tool", "1.0", "a sideloading tool", {"conf": ["x", "y"]})
 
@@ -117,7 +123,8 @@ def build_record(spec):
     rec.record_index = 1
     rules = spec.get("rules")
     if rules:
-        hits = HITS[rules]
+        present = {name for name, _parts, _strand, _cs in LAYOUTS[spec["layout"]]}
+        hits = {gene: table for gene, table in HITS[rules].items() if gene in present}
         ruleset = c03.make_ruleset(RULESETS[rules], hits)
         results = cluster_prediction.detect_protoclusters_and_signatures(rec, ruleset)
         results.annotate_cds_features()
@@ -141,16 +148,24 @@ def build_record(spec):
             protos.append(ProtoclusterAnnotation(150, 210, "sideprod", TOOL, {}, 3, 3, circular_origin=wrap))
         if sideload == "origin-sub" and circular:
             subs.append(SubRegionAnnotation(204, 36, "over origin", TOOL, {}, circular_origin=wrap))
+        if sideload == "origin-subs" and circular:
+            # a pre-origin, an origin-spanning and a post-origin subregion chained into one region, and one elsewhere
+            subs.append(SubRegionAnnotation(150, 212, "before", TOOL, {}, circular_origin=wrap))
+            subs.append(SubRegionAnnotation(208, 33, "over", TOOL, {"k": ["v"]}, circular_origin=wrap))
+            subs.append(SubRegionAnnotation(30, 60, "after", TOOL, {}, circular_origin=wrap))
+            subs.append(SubRegionAnnotation(90, 120, "elsewhere", TOOL, {}, circular_origin=wrap))
         SideloadedResults(rec.id, subs, protos).add_to_record(rec)
     rec.create_candidate_clusters()
     rec.create_regions()
     if "pfam" in extras:
         pfam_hits = []
-        for gene in rec.get_cds_features()[:2]:
-            loc = gene.get_sub_location_from_protein_coordinates(2, 9)
+        # value menu: the first gene's hit sits on every "falsy" boundary (protein start 0, e-value 0.0 as HMMer reports for
+        # very strong hits, score 0.0), the second gene's hit carries ordinary values
+        for gene, (start, end, evalue, score) in zip(_long_genes(rec.get_cds_features()), [(0, 7, 0.0, 0.0), (2, 9, 1e-10, 55.5)]):
+            loc = gene.get_sub_location_from_protein_coordinates(start, end)
             pfam_hits.append(hmmer.HmmerHit(location=str(loc), label="PFtest", locus_tag=gene.get_name(), domain="p450",
-                                            evalue=1e-10, score=55.5, identifier="PF00067.1", description="a domain",
-                                            protein_start=2, protein_end=9, translation=gene.translation[2:9]))
+                                            evalue=evalue, score=score, identifier="PF00067.1", description="a domain",
+                                            protein_start=start, protein_end=end, translation=gene.translation[start:end]))
         hmmer.HmmerResults(rec.id, 0.01, 10.0, "/nonexistent/pfam/31.0/Pfam-A.hmm", "fullhmmer", pfam_hits).add_to_record(rec)
     if "nrps" in extras and rec.get_cds_features_within_regions():
         nrps_results(rec).add_to_record(rec)
@@ -172,16 +187,21 @@ def build_record(spec):
     return rec
 
 
+def _long_genes(genes):
+    """the first two genes long enough (18 residues) to carry the fixed domain coordinates"""
+    return [g for g in genes if len(g.translation) >= 18][:2]
+
+
 def nrps_results(rec):
     """real generate_domains with the three HMMER look-ups replaced by fixed tables (harness instrumentation)"""
-    genes = [g.get_name() for g in rec.get_cds_features_within_regions()]
+    genes = [g.get_name() for g in _long_genes(rec.get_cds_features_within_regions())]
     table = {}
     if genes:
-        table[genes[0]] = [HMMResult("PKS_KS", 0, 5, 1e-9, 40.0), HMMResult("PKS_AT", 6, 11, 1e-9, 41.0), HMMResult("ACP", 12, 17, 1e-9, 42.0)]
+        table[genes[0]] = [HMMResult("PKS_KS", 0, 5, 1e-9, 40.0), HMMResult("PKS_AT", 6, 11, 1e-9, 41.0), HMMResult("ACP", 12, 17, 0.0, 42.0)]
         table[genes[0]][0].add_internal_hits([HMMResult("Trans-AT-KS", 0, 5, 1e-8, 30.0)])
     if len(genes) > 1:
-        table[genes[1]] = [HMMResult("AMP-binding", 1, 7, 1e-9, 43.0), HMMResult("PCP", 9, 15, 1e-9, 44.0)]
-    motifs = {genes[0]: [HMMResult("motifA", 2, 4, 1e-3, 5.0)]} if genes else {}
+        table[genes[1]] = [HMMResult("AMP-binding", 1, 7, 1e-9, 43.0), HMMResult("PCP", 9, 15, 1e-9, 0.0)]
+    motifs = {genes[0]: [HMMResult("motifA", 2, 4, 0.0, 5.0), HMMResult("motifB", 6, 8, 1e-3, 0.0)]} if genes else {}
     saved = (domain_identification.find_domains, domain_identification.find_subtypes, domain_identification.find_ab_motifs)
     saved_path = domain_identification.get_database_path
     domain_identification.get_database_path = lambda *_args: "/nonexistent"
@@ -268,15 +288,16 @@ def specs(tier):
         for layout in LAYOUTS:
             if layout in CIRCULAR_ONLY and not circ:
                 continue
-            for rules in (None, "single", "twins", "mixed", "separate"):
-                for sideload in (None, "sub", "proto", "both", "twin-sub", "two-subs", "origin-sub"):
-                    if sideload == "origin-sub" and not circ:
+            for rules in (None, "single", "twins", "mixed", "separate", "spread"):
+                for sideload in (None, "sub", "proto", "both", "twin-sub", "two-subs", "origin-sub", "origin-subs"):
+                    if sideload in ("origin-sub", "origin-subs") and not circ:
                         continue
                     if rules is None and sideload is None:
                         continue
                     for extras in extra_sets:
                         if tier == "quick" and len(extras) > 0 and (rules, sideload) not in (("mixed", None), ("twins", "both"), ("single", "sub"),
-                                                                                                 (None, "both"), ("separate", "origin-sub"), (None, "two-subs")):
+                                                                                                 (None, "both"), ("separate", "origin-sub"), (None, "two-subs"),
+                                                                                                 ("spread", None), ("spread", "origin-subs")):
                             continue
                         out.append({"circ": circ, "layout": layout, "rules": rules, "sideload": sideload, "extras": extras})
     return out
